@@ -1,14 +1,68 @@
 """entry point: ./check Cxx quick|thorough|warm | --replay <file>"""
+import hashlib
 import importlib
 import json
 import os
+import subprocess
 import sys
+import time
 import traceback
 
 from . import common
 
 
+def supervise(prop, argv):
+    """Run the check in a child interpreter; if the child dies abnormally (e.g. a segfault inside the
+    jitted code under test) report that as a violation instead of vanishing."""
+    t0 = time.time()
+    r = subprocess.run([sys.executable, "-W", "ignore", "-m", "harness.main", "--child", *argv], cwd=common.VERIF)
+    if r.returncode in (0, 1, 2):
+        return r.returncode
+    journal = common.CACHE / f"journal_{prop}.jsonl"
+    entries = []
+    try:
+        entries = [json.loads(l) for l in journal.read_text().splitlines() if l.strip()]
+    except Exception:
+        pass
+    start = next((e for e in entries if e.get("start")), {})
+    audit = next((e["audit"] for e in entries if "audit" in e), None)
+    viols = [e for e in entries if "violation" in e]
+    crumbs = [e for e in entries if "breadcrumb" in e]
+    tier = start.get("tier", os.environ.get("VERIF_TIER", "quick"))
+    payload = {"property": prop, "kind": "implementation-crashed-the-interpreter", "exit_status": r.returncode,
+               "note": "the check's interpreter died (signal / abnormal exit) while exercising the implementation; "
+                       "violations journalled before the crash and the last breadcrumb are listed",
+               "violations_before_crash": viols[:5], "last_breadcrumb": crumbs[-1] if crumbs else None,
+               "seed": common.seed(), "tier": tier, "repo": common.repo_git_state(),
+               "replay_cmd": f"./check {prop} --replay <this file>"}
+    d = common.REPLAYS / prop
+    d.mkdir(parents=True, exist_ok=True)
+    blob = json.dumps(payload, indent=1, sort_keys=True, default=str)
+    name = hashlib.sha1(blob.encode()).hexdigest()[:12] + ".json"
+    (d / name).write_text(blob)
+    found = bool(viols or crumbs)
+    print(f"VIOLATION property={prop} replay=replays/{prop}/{name}" + ("" if found else " no-failing-input-found"))
+    ev = {"property_id": prop, "tier": tier if tier in ("quick", "thorough") else "quick", "seed": common.seed(), "level": "proof",
+          "coverage": {"obligations": max(1, (audit or {}).get("obligations", start.get("theorems", 1))),
+                       "discharged": max(1, (audit or {}).get("discharged", 1)) if audit else 1,
+                       "checker_cmd": (audit or {}).get("cmd", "cd lean && lake build"),
+                       "trusted_base": common.TRUSTED_BASE,
+                       "evaluations": len(entries), "distinct_nontrivial": 0,
+                       "rule": "the check's interpreter crashed while exercising the implementation; see the replay file",
+                       "samples": [payload["last_breadcrumb"] or payload["kind"]]},
+          "assumptions": ["this run did not complete: the implementation under test crashed the interpreter"],
+          "wall_s": round(time.time() - t0, 2), "violations": 1}
+    common.EVIDENCE.mkdir(exist_ok=True)
+    (common.EVIDENCE / f"{prop}.json").write_text(json.dumps(ev, indent=1, default=str))
+    print(f"[{prop}] interpreter exited with status {r.returncode} -> exit 1")
+    return 1
+
+
 def main(argv):
+    child = False
+    if argv and argv[0] == "--child":
+        child = True
+        argv = argv[1:]
     if len(argv) < 2:
         print("usage: ./check Cxx quick|thorough|warm | ./check Cxx --replay <file>")
         return 2
@@ -38,6 +92,8 @@ def main(argv):
             r = subprocess.run([str(common.VERIF / "check"), p, mode])
             rc = max(rc, r.returncode)
         return rc
+    if not child:
+        return supervise(prop, argv)
     try:
         common.setup_numba_cache()
         mod = importlib.import_module(f"harness.{prop.lower()}")
